@@ -370,7 +370,7 @@ class C17(vlib.Driver):
                 cases[-1]["ids"] = [f"agent_{i}" for i in range(A)]
                 cases[-1]["dict_order"] = list(cases[-1]["ids"])
         # (c) seeded
-        n_ppo, n_ippo = (150, 200) if quick else (2500, 3500)
+        n_ppo, n_ippo = (130, 170) if quick else (2500, 3500)
         for _ in range(n_ppo):
             T = rng.choice([1, 2, 3, 4, 5, 6, 7, 8]); exact = rng.random() < 0.6
             if not exact:
@@ -378,7 +378,7 @@ class C17(vlib.Driver):
             vec = rng.random() < 0.8
             E = rng.choice([1, 2, 3, 4]) if vec else 1
             cases.append(self.mk_case(rng, "ppo", T, E, [self.rand_group(rng, T, 1, E, exact, p_done=rng.choice([0.15, 0.3, 0.6]))],
-                                      vec=vec, exact=exact, obs=rng.choice(["vector", "vector", "dict", "tuple", "image"]),
+                                      vec=vec, exact=exact, obs=rng.choice(["vector", "vector", "vector", "dict", "tuple", "image"]),
                                       act=rng.choice(["box2", "box1", "discrete", "multidisc"]), net=rng.choice(["plain", "partial"]),
                                       share=rng.random() < 0.3))
             if rng.random() < 0.35:
@@ -393,7 +393,7 @@ class C17(vlib.Driver):
             if rng.random() < 0.3:
                 groups.append(self.rand_group(rng, T, rng.choice([1, 2]), E, exact))
             cases.append(self.mk_case(rng, "ippo", T, E, groups, vec=vec, exact=exact,
-                                      obs=rng.choice(["vector", "vector", "dict", "tuple", "image"]),
+                                      obs=rng.choice(["vector", "vector", "vector", "dict", "tuple", "image"]),
                                       act=rng.choice(["box2", "box1", "discrete", "multidisc"]), net=rng.choice(["plain", "partial"])))
             if rng.random() < 0.35:
                 self.with_epochs(rng, cases[-1])
